@@ -671,11 +671,23 @@ pub fn build_error(
     } else {
         None
     };
-    let has_ext_struct = matches!(layout, ErrorLayout::Compliant(_) | ErrorLayout::Legacy128(_));
+    let has_ext_struct = matches!(layout, ErrorLayout::Compliant(_) | ErrorLayout::Legacy128(_) | ErrorLayout::CompliantShortLength(_));
+    // the short-length form only exists for quotations that fit the 128-octet field
+    let fallback;
+    let layout = if let ErrorLayout::CompliantShortLength(o) = layout {
+        if dg.len() > 128 {
+            fallback = ErrorLayout::Compliant(o.clone());
+            &fallback
+        } else {
+            layout
+        }
+    } else {
+        layout
+    };
     if v6 {
         // as much as fits into the minimum MTU
         let extra = match layout {
-            ErrorLayout::Compliant(o) | ErrorLayout::Legacy128(o) => 4 + o.iter().map(|x| 4 + x.payload.len()).sum::<usize>(),
+            ErrorLayout::Compliant(o) | ErrorLayout::Legacy128(o) | ErrorLayout::CompliantShortLength(o) => 4 + o.iter().map(|x| 4 + x.payload.len()).sum::<usize>(),
             _ => 0,
         };
         q.truncate(1280usize.saturating_sub(48 + extra).max(48));
@@ -693,7 +705,7 @@ pub fn build_error(
     let quote_len = q.len();
     let quoted_tos = get_tos(&q);
     let exts = match layout {
-        ErrorLayout::Compliant(o) | ErrorLayout::Legacy128(o) => Some(o.clone()),
+        ErrorLayout::Compliant(o) | ErrorLayout::Legacy128(o) | ErrorLayout::CompliantShortLength(o) => Some(o.clone()),
         _ => None,
     };
     // RFC 4884 §5: without a length attribute a quotation longer than 128 octets cannot
@@ -711,7 +723,7 @@ pub fn build_error(
     let unit = if v6 { 8 } else { 4 };
     let ext_rel = match layout {
         ErrorLayout::Compliant(_) => Some(quote_len.max(128).div_ceil(unit) * unit),
-        ErrorLayout::Legacy128(_) => Some(128),
+        ErrorLayout::Legacy128(_) | ErrorLayout::CompliantShortLength(_) => Some(128),
         _ => None,
     };
     match (from, host) {
